@@ -53,6 +53,12 @@ def make_case(seed: int, tier: str, prop: str, opts=None) -> Dict[str, Any]:
         rng.choice(sc["sims"])["transport"] = rng.choice(["remote", "cmd"])
     prof = rng.choice(C14_PROFILES)
     sp = {"profile": prof, "seed": rng.randrange(1 << 30)}
+    if rng.random() < 0.3:
+        sp["split"] = True
+    if rng.random() < 0.15 and not any(s.get("stub") == "async" for s in sc["sims"]):
+        # the same faults in real-time mode (poll timers race with the shutdown)
+        sc["config"]["rt_factor"] = rng.choice([0.02, 0.05, 0.2])
+        sc["until"] = min(sc["until"], 3)
     return {"scenario": sc, "schedule": sp, "sample_seed": seed,
             "max_points": (10 if tier == "quick" else None),
             "double": (1 if tier == "quick" else 8)}
